@@ -422,6 +422,13 @@ IMPLICIT_SITES = [
      "[any-spec] type Any: a class_path mapping whose init_args is a non-empty non-mapping ({class_path: C, init_args: 3}): "
      "init_args.__dict__ -> 'int' object has no attribute '__dict__' (the surrounding try only covers adapt_class_type)",
      {"shape": "basic", "entry": "parse_env", "input": {"APP_ANY": "{class_path: calendar.Calendar, init_args: 3}"}}),
+    ("_typehints.ActionTypeHint.add_sub_defaults", "builtins.RecursionError",
+     "[pairs] a self-referential YAML alias whose cycle passes through a TUPLE (!!pairs / !!omap build lists of tuples): the cycle check "
+     "of yaml_load descends dicts and lists only, so the value gets through and holds_subclass_spec (type Any) recurses without bound",
+     {"shape": "basic", "entry": "parse_args", "input": ["--any=&x !!pairs [k: *x]"]}),
+    ("_namespace.recreate_branches", "builtins.RecursionError",
+     "[pairs] the same value anywhere in a config text / file / object: Namespace.clone() -> recreate_branches walks tuples too",
+     {"shape": "basic", "entry": "parse_string", "input": "any: &x !!omap [k: *x]\n"}),
     ("_actions._ActionPrintConfig.__call__", "builtins.IndexError",
      "argparse hands `--print_config=--` to the action as the empty list: value[0] -> list index out of range",
      {"shape": "basic", "entry": "parse_args", "input": ["--print_config=--"]}),
@@ -479,6 +486,7 @@ FINDING_KEYS = {
     27: "huge-int-rendering",
     28: "cwd-deleted",
     29: "any-class-spec-init-args-not-mapping",
+    30: "yaml-alias-cycle-through-pairs",
 }
 # key -> [(function, class or superclass, kind prefix, modes)]; modes: "t" = only when exit_on_error=True, "f" = only
 # when False, "tf" = both. A site is a finding site only if it ESCAPES an entry point and its class is not the
@@ -511,6 +519,8 @@ FINDING_SITES = {
     "registered-type-arithmetic-error": [("typing.RegisteredType.deserializer", "builtins.ArithmeticError", "implicit: [registered]", "tf")],
     "yaml-timestamp-tag": [("_loaders_dumpers.yaml_load", AE, "implicit: [tag]", "tf")],
     "any-class-spec-init-args-not-mapping": [("_typehints.adapt_classes_any", AE, "implicit: [any-spec]", "tf")],
+    "yaml-alias-cycle-through-pairs": [("_typehints.ActionTypeHint.add_sub_defaults", "builtins.RecursionError", "implicit: [pairs]", "tf"),
+                                       ("_namespace.recreate_branches", "builtins.RecursionError", "implicit: [pairs]", "tf")],
     "parse-object-non-mapping": [("_core.ArgumentParser._apply_actions", AE, "implicit: [non-mapping]", "tf")],
     "huge-int-rendering": [("_actions._ActionPrintConfig.print_config_if_requested", VE, "implicit: [huge-int]", "tf"),
                            ("_core.ArgumentParser._check_value_key", VE, "implicit: [huge-int]", "tf"),
